@@ -624,6 +624,10 @@ class Interp:
         if isinstance(x, Tup) and name == "clone":
             return deep(x)
         if isinstance(x, BoolV):
+            if name == "then" and len(args) == 2:
+                return Opt(True, self.call_closure(unref(args[1]), [], e)) if x.b else Opt(False)
+            if name == "then_some" and len(args) == 2:
+                return Opt(True, args[1]) if x.b else Opt(False)
             if name == "not":
                 return BoolV(not x.b)
             if name in ("all", "none", "any"):
